@@ -45,26 +45,66 @@ class ScriptedPRF:
         return real_prf(key, msg)
 
 
+_PROBE = {"installed": False, "rec": None}
+
+
+def install_os_random_probes():
+    """Replace the process's doors to the OS CSPRNG by pass-through probes: os.urandom, os.getrandom,
+    random._urandom (what random.SystemRandom and `secrets` call) and ssl.RAND_bytes.
+
+    Must run BEFORE btc_hd_wallet is imported, so that an implementation that binds the function at import time
+    (`from os import urandom`) binds the probe.  The probes only count while a recorder is active."""
+    if _PROBE["installed"]:
+        return
+    import random
+    real_urandom = os.urandom
+
+    def urandom(n):
+        rec = _PROBE["rec"]
+        if rec is not None:
+            rec["bytes"] += n
+            rec["calls"] += 1
+        return real_urandom(n)
+    os.urandom = urandom
+    random._urandom = urandom
+    if hasattr(os, "getrandom"):
+        real_getrandom = os.getrandom
+
+        def getrandom(size, flags=0):
+            out = real_getrandom(size, flags)
+            rec = _PROBE["rec"]
+            if rec is not None:
+                rec["bytes"] += len(out)
+                rec["calls"] += 1
+            return out
+        os.getrandom = getrandom
+    try:
+        import ssl
+        real_rand = ssl.RAND_bytes
+
+        def rand_bytes(n):
+            rec = _PROBE["rec"]
+            if rec is not None:
+                rec["bytes"] += n
+                rec["calls"] += 1
+            return real_rand(n)
+        ssl.RAND_bytes = rand_bytes
+    except Exception:  # noqa: BLE001
+        pass
+    _PROBE["installed"] = True
+
+
 @contextlib.contextmanager
 def urandom_recorder():
-    """Wrap os.urandom and random._urandom (what random.SystemRandom calls); pass-through, recording."""
-    import random
+    """Count the bytes requested from the OS random source while the block runs (pass-through)."""
+    install_os_random_probes()
     rec = {"bytes": 0, "calls": 0}
-    old_os = os.urandom
-    old_r = random._urandom
-
-    def wrapped(n):
-        rec["bytes"] += n
-        rec["calls"] += 1
-        return old_os(n)
-
-    os.urandom = wrapped
-    random._urandom = wrapped
+    old = _PROBE["rec"]
+    _PROBE["rec"] = rec
     try:
         yield rec
     finally:
-        os.urandom = old_os
-        random._urandom = old_r
+        _PROBE["rec"] = old
 
 
 @contextlib.contextmanager
